@@ -278,6 +278,22 @@ func TestVerif_C09(t *testing.T) {
 			rep.Violation("session/stalled", "the final barrier COUNT was not answered: the merged handler lost a reply or stopped", map[string]any{"children": nch, "sent": log, "received": describeRecv(cl.snapshot())})
 			return
 		}
+		// replies to different ids may overtake each other on their way out (the statement fixes
+		// no order between them): the barrier's reply does not prove that the others are out yet.
+		// Every child has answered everything by now, so the remaining replies are due; wait for
+		// their number (a reply still missing after the bound is judged below).
+		cl.waitFor(func(rs []rRecv) bool {
+			nOK, nCnt := 0, 0
+			for _, r := range rs {
+				switch r.msg.(type) {
+				case *mocrelay.ServerOKMsg:
+					nOK++
+				case *mocrelay.ServerCountMsg:
+					nCnt++
+				}
+			}
+			return nOK >= totalEv && nCnt >= totalCnt+1
+		})
 		got := cl.snapshot()
 		w.mu.Lock()
 		oks := append([]mEmit{}, w.oks...)
